@@ -77,7 +77,7 @@ Record ==
   [id |-> v_idx, a |-> Join(Render(v_a)), b |-> Join(Render(v_b)), sa |-> SideJson(v_a), sb |-> SideJson(v_b),
    rule |-> r, mrule |-> m, expect |-> ExpectTerm(r, v_a, v_b), inter |-> InterTerm(v_a),
    tags |-> ConvTags(v_a, v_b), known |-> ConvTags(v_a, v_b) \cap KnownDevs # {}, agrees |-> Agrees(r, m)]
-Header == [magnitudes |-> Magnitudes, array |-> ArrayMags]
+Header == [magnitudes |-> Magnitudes, array |-> ArrayMags, zeros |-> ZeroMags, zeroarray |-> ZeroArray, kinds |-> MagKinds]
 EmitInv == Emit /\ Leaf => PrintT(ToJson(Record))
 EmitHeader == Emit /\ v_st = "a" /\ v_a = <<>> => PrintT(ToJson(Header))
 =============================================================================
